@@ -156,7 +156,7 @@ func WordFileGen() *rapid.Generator[WordFile] {
 		// total size exactly on, just below or just above a power-of-two limit (64 KiB, 1 MiB), or well
 		// above 1 MiB: rare (the files are large)
 		target := 0
-		switch k := rapid.IntRange(0, 199).Draw(t, "size-target"); {
+		switch k := rapid.IntRange(0, 399).Draw(t, "size-target"); {
 		case k == 0:
 			target = 1 << 20
 		case k == 1:
